@@ -69,6 +69,42 @@ ARG_EVAL = [("1", 1), ("\"s\"", 1), ("(1, 2)", 2), ("(\"a\", \"b\", \"c\")", 3),
             ("1 )", -1), ("nosuch", -1), ("drop", -2), ("(1, 2) " + BOMB % 2, -2)]
 
 
+SC_STR = ["a", "", "caf\\xc3\\xa9", "\\xff", "\\x80\\x81", "\\x01", "\\x7f", "\\x1f\\x10", "\\t", "\\n", "q\\\"q", "\\\\",
+          "x y", "%%", "\\x0e", "z\\xfez", "\\101", "tab\\there", "\\xe2\\x82\\xac", "a,b", "[x]", "0"]
+SC_CONST = ["16", "0x10", "020", "0b10000", "0", "-1", "1", "255", "0xff", "0377", "0xffffffffffffffff", "18446744073709551615",
+            "-9223372036854775808", "9223372036854775807", "true", "false", "DW_TAG_subprogram", "DW_TAG_base_type",
+            "DW_AT_name", "DW_FORM_strp", "DW_LANG_C89", "DW_ATE_signed", "T_CONST", "T_STR", "DW_OP_addr",
+            "16 hex", "16 oct", "16 bin", "0x10 dec", "-1 hex", "255 bin", "0 hex", "true value", "DW_TAG_subprogram value",
+            "DW_AT_name value hex", "0x2e", "46", "DW_TAG_subprogram hex" , "1 2 add", "0x10 1 add", "010 1 add"]
+
+
+def gen_scalar_value(rng, depth=0):
+    k = rng.random()
+    if k < 0.35:
+        return '"%s"' % "".join(rng.choice(SC_STR) for _ in range(rng.choice([1, 1, 2])))
+    if k < 0.8 or depth >= 2:
+        c_ = rng.choice(SC_CONST)
+        return c_ if " " not in c_ else "(" + c_ + ")"
+    n = rng.choice([0, 1, 2, 3, 4])
+    return "[" + ", ".join(gen_scalar_value(rng, depth + 1) for _ in range(n)) + "]"
+
+
+def gen_scalar_body(rng):
+    """Scalars of every printable kind, next to one another: constants of all
+    domains (equal values in different ones side by side), strings with bytes
+    that need escaping in the brief form, nested sequences of those."""
+    k = rng.random()
+    if k < 0.3:
+        return gen_scalar_value(rng), "one"
+    if k < 0.6:
+        return "(" + ", ".join(gen_scalar_value(rng) for _ in range(rng.choice([2, 3, 4]))) + ")", "many"
+    if k < 0.8:
+        return " ".join(gen_scalar_value(rng) for _ in range(rng.choice([2, 3]))), "multi"
+    if k < 0.9:
+        return "[" + ", ".join(gen_scalar_value(rng, 1) for _ in range(rng.choice([2, 3, 5]))) + "] elem", "many"
+    return "(" + ", ".join(gen_scalar_value(rng) for _ in range(2)) + ") " + gen_scalar_value(rng), "multi"
+
+
 # ------------------------------------------------------------------ plan
 
 def make_plan(rng, idx):
@@ -107,11 +143,17 @@ def make_plan(rng, idx):
             t, n = rng.choice(ARG_EVAL)
             if n < 0 and rng.random() < 0.6:
                 t, n = rng.choice([a for a in ARG_EVAL if a[1] >= 0])
+            if n >= 0 and rng.random() < 0.25:
+                # several values that the header has to render in the brief form
+                n = rng.choice([1, 2, 3])
+                t = "(" + ", ".join(gen_scalar_value(rng) for _ in range(n)) + ")" if n > 1 else gen_scalar_value(rng)
             cli["args"].append({"kind": "eval", "text": t})
 
     body, klass = rng.choice(BODIES)
     if rng.random() < 0.25:
         body, klass = rng.choice([b for b in BODIES if b[1] in ("fail", "reject", "none", "multi")])
+    elif rng.random() < 0.3:
+        body, klass = gen_scalar_body(rng)
     argdep = None
     if rng.random() < 0.2:
         # a query that fails after one result, but only for one combination
@@ -463,7 +505,7 @@ def charp_brief(b):
         elif 0x20 <= c < 0x7f:
             out.append(c)
         else:
-            out += b"\\x%02x" % c
+            out += b"\\x%2x" % c       # setw (2) with the default fill: "\\x 1"
     out += b'"'
     return bytes(out)
 
